@@ -1,7 +1,7 @@
 (* C21 — Reflogs read back forwards and backwards identically: the statements. *)
 From Coq Require Import List Arith.
 From GixV.Base Require Import Bytes BytesFacts Outcome.
-From GixV.C21 Require Import Model Spec ProofsRev ProofsIter ProofsSmall.
+From GixV.C21 Require Import Model Spec ProofsRev ProofsIter ProofsSmall ProofsRT1 ProofsRT2 ProofsRT3 ProofsRT4 ProofsRT5.
 Import ListNotations.
 Local Open Scope nat_scope.
 
@@ -90,3 +90,32 @@ Example too_small_sample :
   flines two_lines = [bs "a"] ++ bs "bc" :: [] /\ toolong 2 [bs "a"] (bs "bc") /\ fits_others 2 [] /\
   collect (reverse_fuel two_lines) two_lines (init_state two_lines [x00; x00]) = Ok [RTooSmall].
 Proof. vm_compute. repeat split; try constructor. Qed.
+
+(* ---- first sentence of the property: written entries parse back to the same entries ------------------- *)
+
+(* For every well-formed entry (20-byte ids; name/email without '<', '>', LF; email without surrounding ASCII
+   whitespace; seconds in i64, offset whole minutes below 100 h with a sign that agrees; message without LF):
+   Line::write_to succeeds and writes one LF-terminated line without inner LF, LineRef::from_bytes of that line
+   is the same entry (ids as hex text), and Into<Line> of it is the entry itself. *)
+Theorem line_roundtrip_partial : forall l, wf_entry l ->
+  exists body, line_write l = Ok (body ++ [LF]) /\ nolf body /\
+    from_bytes body = Ok (as_ref l) /\ own (from_bytes body) = RLine l.
+Proof. exact line_roundtrip. Qed.
+
+(* Writing well-formed entries one after the other gives a log that reads forwards as exactly those entries and,
+   with any buffer at least as long as its longest line incl. LF, backwards as exactly those entries reversed. *)
+Theorem appended_entries_read_back : forall ls, Forall wf_entry ls ->
+  exists f, write_all ls = Ok f /\
+    forward f = map (fun l => Ok (as_ref l)) ls /\
+    forall buf, buf <> [] -> maxline_nl (flines f) <= length buf ->
+      collect (reverse_fuel f) f (init_state f buf) = Ok (rev (map RLine ls)).
+Proof. exact log_roundtrip. Qed.
+
+(* Time::write_to / the time tuple of signature::decode alone *)
+Theorem time_roundtrip_full : forall t, wf_time t ->
+  exists T, time_write t = Ok T /\ forallb tchar T = true /\ time_tuple T = Some (t, []).
+Proof. exact time_roundtrip. Qed.
+
+(* the hypothesis is satisfiable by a non-trivial entry (CR, '>' and TAB in the message, negative seconds, -0530) *)
+Example wf_entry_sample : wf_entry sample_entry.
+Proof. exact sample_entry_wf. Qed.
